@@ -1,21 +1,25 @@
 #!/bin/bash
-# try_seed_wt.sh <dir-with-patch.diff> : like try_seed.sh, but in a scratch worktree of /repo HEAD (removed afterwards),
-# so that several changes can be tried in parallel and /repo's working tree is never touched.
+# try_seed_wt.sh <dir-with-patch.diff> [props...] : like try_seed.sh, but in a scratch worktree of /repo HEAD (removed
+# afterwards), so that several changes can be tried in parallel and /repo's working tree is never touched.  The
+# properties are analysed four at a time.
 set -u
-D="$1"
+D="$1"; shift
+PROPS="${*:-C01 C02 C03 C04 C05 C06 C07 C08 C09 C10 C11 C12 C13 C14 C15 C16 C17 C18 C19 C20}"
 export GOFLAGS=-mod=mod GOPROXY=off GOSUMDB=off GOTOOLCHAIN=local
 W=/tmp/tryw_$(basename "$D")_$$
+V=/tmp/tryv_$$
 git -C /repo worktree add -q --detach "$W" HEAD || exit 2
-trap 'git -C /repo worktree remove --force "$W" >/dev/null 2>&1; rm -rf /tmp/tryv_$$' EXIT
+trap 'git -C /repo worktree remove --force "$W" >/dev/null 2>&1; rm -rf "$V"' EXIT
 git -C "$W" apply "$D/patch.diff" || { echo "patch does not apply"; exit 2; }
-mkdir -p /tmp/tryv_$$; cp /verif/known-findings.txt /tmp/tryv_$$/ 2>/dev/null
+mkdir -p "$V"
+for p in $PROPS; do mkdir -p "$V/$p"; cp /verif/known-findings.txt "$V/$p/" 2>/dev/null; done
+echo $PROPS | tr ' ' '\n' | xargs -P 4 -I{} sh -c "/verif/bin/sacheck -prop {} -repo $W -verif $V/{} > $V/{}.out 2>&1"
 caught=""
-for p in C01 C02 C03 C04 C05 C06 C07 C08 C09 C10 C11 C12 C13 C14 C15 C16 C17 C18 C19 C20; do
-  out=$(/verif/bin/sacheck -prop $p -repo "$W" -verif /tmp/tryv_$$ 2>&1)
-  if echo "$out" | grep -q "^VIOLATION"; then
+for p in $PROPS; do
+  if grep -q "^VIOLATION" "$V/$p.out"; then
     caught="$caught $p"
     echo "== $p"
-    echo "$out" | grep -E "^\s+\[(violation|unresolved)\]" | cut -c1-260
+    grep -E "^\s+\[(violation|unresolved)\]" "$V/$p.out" | cut -c1-260
   fi
 done
 echo "CAUGHT-BY:$caught"
